@@ -346,6 +346,7 @@ DEFAULT_PROFILE = dict(
     p_tag_attr=0.5,
     route_docs_refs=True,
     p_anntype_foreign=0.3,
+    max_omitted=3,
 )
 
 
@@ -627,7 +628,7 @@ class Gen:
         r = self.rnd
         if not self.chance('p_annotations'):
             return
-        n_om = r.randint(0, 3)
+        n_om = r.randint(0, self.p['max_omitted'])
         for c in r.sample(CALLERS, n_om):
             ns.defs.append(AnnDef(name='Om%s%d' % (c.capitalize(), self._n()), ns=ns.name,
                                   atype='Omitted', args=[c], kwargs={}))
